@@ -468,7 +468,27 @@ func hullCase(c *mon.Case) {
 		}
 		pts = append(pts, p)
 	}
-	switch r.Intn(4) {
+	switch r.Intn(5) {
+	case 4: // a polygon of several shells, some with holes (and islands in the holes), loops in shuffled order
+		var loops []*s2.Loop
+		pts = nil
+		k := 2 + r.Intn(4)
+		x, y, z := gen.Frame(ctr)
+		for j := 0; j < k; j++ {
+			cj := gen.AtPolar(x, y, z, spread*0.6, 2*math.Pi*float64(j)/float64(k))
+			rad := spread * 0.6 * math.Sin(math.Pi/float64(k)) * 0.7
+			for d := 0; d < 1+r.Intn(3); d++ {
+				sp := gen.StarLoop(r, cj, 3+r.Intn(10), rad*0.8, rad)
+				loops = append(loops, sp.Loop())
+				if d == 0 {
+					pts = append(pts, sp.Vs...) // the hull must contain every shell
+				}
+				rad = sp.RMin * 0.7
+			}
+		}
+		r.Shuffle(len(loops), func(i, j int) { loops[i], loops[j] = loops[j], loops[i] })
+		q.AddPolygon(s2.PolygonFromLoops(loops))
+		c.Count("hull.multi_shell_polygons", 1)
 	case 0:
 		for _, p := range pts {
 			q.AddPoint(p)
